@@ -139,6 +139,7 @@ class State:
         self.convs = {}         # name -> {'base': sym, 'kind': str|None}
         self.burnt = []         # (symbol, how it was rejected)
         self.rej_dims = []      # items of types rejected for other reasons
+        self.rej_terms = []     # rejected term definitions (wrong type)
         self.n_amount = 0
 
     def amount(self):
@@ -207,6 +208,30 @@ def resolve(st: State, op):
                     'style': r[2] % 3, 'ref_sym': f'r{n}' if all_ref
                     else None, 'auto_ref': False, 'quantum': None,
                     'expect': 'accept', 'reuse': 'dimension'}
+        if st.rej_terms and r[0] % 3 == 1:
+            # the term of a rejected definition, now for the right type
+            old = st.rej_terms[r[1] % len(st.rej_terms)]
+            if all(s in model.units for s, _ in old['items']):
+                tn = model.dims.get(decl.dim_key(
+                    model.term_dim(old['items'])))
+                if tn is not None and model.has_ref(tn) and \
+                        (model.types[tn]['quantum'] is None
+                         or not old.get('nums')):
+                    t = model.types[tn]
+                    shape = [[model.units[s]['type'], e]
+                             for s, e in old['items']]
+                    if not old.get('nums') and t['items'] is not None and \
+                            shape == [list(i) for i in t['items']] and \
+                            r[2] % 2:
+                        # the same term, declared with derive_unit_from
+                        return {'a': 'derive_unit', 'type': tn,
+                                'units': [s for s, _ in old['items']],
+                                'sym': f'u{n}', 'expect': 'accept',
+                                'reuse': 'term'}
+                    act = {k: v for k, v in old.items() if k != 'bad'}
+                    act.update(type=tn, sym=f'u{n}', expect='accept',
+                               reuse='term')
+                    return act
         cands = [s for s, _ in st.burnt if s not in model.units]
         s = decl._pick(cands, r[1])
         if s is None:
@@ -313,6 +338,8 @@ def note_outcome(st: State, act, accepted, info):
     if a == 'derived_type' and act.get('bad') == 'dup_symbol' and \
             act.get('items'):
         st.rej_dims.append(act['items'])
+    if a == 'term_unit' and act.get('bad') == 'wrong_dimension':
+        st.rej_terms.append(act)
 
 
 def _kind_of(v):
@@ -363,8 +390,10 @@ def perform(env: Env16, act):
                   if at == 'frac' else int(av) if at == 'int' else av)
             u = Decimal(um['v']) if um['t'] == 'dec' else int(um['v'])
             specs.append((c, am, u))
+        form = (len(specs) + len(act['conv'])) % 3
+        container = [specs, iter(specs), (s for s in specs)][form]
         try:
-            conv.update(validity, specs)
+            conv.update(validity, container)
         except Exception as e:      # noqa
             return 'exc', type(e).__name__
         return 'ok', {}
@@ -383,16 +412,30 @@ def perform(env: Env16, act):
     return decl.perform(env, act)
 
 
-def observe(env: Env16, symbols, typenames):
+def observe(env: Env16, symbols, typenames, pairs=(), final=True):
     """Everything a user can see, as pure data.  Observation never raises:
-    an exception is an observed value."""
+    an exception is an observed value.
+
+    Evaluating an operation is not read-only (it fills caches), and a probe
+    evaluated after every step would pre-load them in both worlds alike and
+    hide what a rejected step left behind; operations are therefore only
+    evaluated in the final observation of a history."""
     try:
-        return _observe(env, symbols, typenames)
+        return _observe(env, symbols, typenames, pairs, final)
     except Exception as e:      # noqa
         return {'observation': 'exc:' + type(e).__name__}
 
 
-def _observe(env: Env16, symbols, typenames):
+def _observe(env: Env16, symbols, typenames, pairs=(), final=True):
+    # Observing u*v memoises it; without eviction every observation would
+    # pre-load the operation memo in both worlds alike and hide what an
+    # earlier (rejected) step left behind elsewhere.  Evicting the memo must
+    # never change a result, and both worlds do it identically.
+    try:
+        import quantity
+        quantity._UNIT_OP_CACHE.clear()
+    except Exception:       # noqa: renamed - observation goes on without
+        pass
     from quantity import Quantity, Unit
     from quantity.money import Money, ExchangeRate
     obs = {}
@@ -420,6 +463,8 @@ def _observe(env: Env16, symbols, typenames):
             obs['type:' + tn] = 'exc:' + type(e).__name__
         obs['convs:' + tn] = len(list(cls.registered_converters()))
     # results of operations on what exists
+    if not final:
+        live, pairs = [], ()
     for u in live[:5]:
         for v in live[:5]:
             for opn, fn in (('*', lambda: u * v), ('/', lambda: u / v)):
@@ -432,6 +477,18 @@ def _observe(env: Env16, symbols, typenames):
                 except Exception as e:      # noqa
                     obs[f'{u.symbol}{opn}{v.symbol}'] = \
                         'exc:' + type(e).__name__
+    # ... and the products / quotients that term definitions anywhere in
+    # the history (also rejected ones) are made of
+    for s1, s2, opn in pairs:
+        try:
+            u, v = Unit(s1), Unit(s2)
+            amnt, unit = u * v if opn == '*' else u / v
+            obs[f'{s1}{opn}{s2}'] = [
+                f"{amnt.numerator}/{amnt.denominator}",
+                None if unit is None else unit.symbol,
+                None if unit is None else unit.qty_cls.__name__]
+        except Exception as e:      # noqa
+            obs[f'{s1}{opn}{s2}'] = 'exc:' + type(e).__name__
     curs = Money.units()
     dates = [dt.date.fromisoformat(d) for d in PROBE_DATES]
     for cn in sorted(env.convs):
@@ -493,15 +550,16 @@ def run_a1(h):
 
 def run_concrete(arg):
     """Worlds A2 and B: execute concrete actions, observe after each."""
-    actions, symbols, typenames, variant = arg
+    actions, symbols, typenames, variant, pairs = arg
     env = Env16()
     if variant == 'predefined':
         decl.seed_catalogue(decl.RefDir(), env)
-    out = [['init', observe(env, symbols, typenames)]]
-    for act in actions:
+    out = [['init', observe(env, symbols, typenames, pairs, final=False)]]
+    for i, act in enumerate(actions):
         res, info = perform(env, act)
         out.append([res if res == 'ok' else info,
-                    observe(env, symbols, typenames)])
+                    observe(env, symbols, typenames, pairs,
+                            final=i == len(actions) - 1)])
     return out
 
 
@@ -531,10 +589,30 @@ def judge(h):
     def deleted(a):
         return a['raised'] and a['expect'] != 'accept'
     kept = [a for a, full in zip(plain, actions) if not deleted(full)]
+    pairs = []
+    for act in actions:
+        its = act.get('items') if act['a'] == 'term_unit' else None
+        if act['a'] == 'derive_unit' and len(act.get('units', [])) == 2:
+            its = [[act['units'][0], 1], [act['units'][1], 1]]
+            pairs.append([act['units'][0], act['units'][1], '/'])
+        if its and len(its) == 2 and abs(its[0][1]) == 1 and \
+                abs(its[1][1]) == 1:
+            (s1, e1), (s2, e2) = its
+            if e1 == -1:
+                (s1, e1), (s2, e2) = (s2, e2), (s1, e1)
+            if e1 == 1:
+                p = [s1, s2, '*' if e2 == 1 else '/']
+                if p not in pairs:
+                    pairs.append(p)
+        elif its and len(its) == 1 and its[0][1] == 2:
+            p = [its[0][0], its[0][0], '*']
+            if p not in pairs:
+                pairs.append(p)
+    pairs = pairs[:12]
     obs_a = core.run_in_child(run_concrete,
-                              (plain, symbols, typenames, variant))
+                              (plain, symbols, typenames, variant, pairs))
     obs_b = core.run_in_child(run_concrete,
-                              (kept, symbols, typenames, variant))
+                              (kept, symbols, typenames, variant, pairs))
     faults, probes, known = {}, {}, {}
     violations = []
 
